@@ -379,6 +379,108 @@ def family_task(seqs):
     return st
 
 
+# ---- histories in which the DATA changes between evaluations ------------------------------------------------
+# Filters that follow references are evaluated, the grid's rows are replaced / mutated / the grid is swapped for another
+# one of the same size, and the same filters are evaluated again: each answer is the one the reference evaluator gives for
+# the rows the grid holds NOW, whatever was evaluated on whatever earlier state.
+GS_FILTERS = [('siteRef->area == 10', ('cmp', '==', ('siteRef', 'area'), N.num(10.0))),
+              ('siteRef->area', ('has', ('siteRef', 'area'))),
+              ('siteRef->area == 20 or area == 30', ('or', ('cmp', '==', ('siteRef', 'area'), N.num(20.0)), ('cmp', '==', ('area',), N.num(30.0))))]
+GS_EVENTS = ['F0', 'F1', 'F2', 'replace-target-row', 'replace-source-row', 'delete-and-append', 'mutate-row-in-place', 'other-grid', 'drop-target-tag']
+
+
+def _gs_rows(variant=0):
+    ref = lambda n, d: ('ref', n, d)  # noqa: E731
+    rows = [{'id': ref('e1', 'Equip 1'), 'siteRef': ref('s1', None), 'equip': MK},
+            {'id': ref('s1', 'Site 1'), 'area': N.num(10.0)},
+            {'id': ref('s2', 'Site 2'), 'area': N.num(20.0)}]
+    if variant == 1:
+        rows = [{'id': ref('e1', 'Equip 1'), 'siteRef': ref('s2', None), 'equip': MK},
+                {'id': ref('s1', 'Site 1'), 'area': N.num(20.0)},
+                {'id': ref('s2', 'Site 2')}]
+    return rows
+
+
+def gridstate_task(seqs):
+    import hszinc as hs
+    from hszinc import grid_filter as gf
+    from ref import observe as O
+    st = Stats()
+
+    def mk(rows):
+        g = hs.Grid(version='3.0', columns=[('id', []), ('siteRef', []), ('area', []), ('equip', [])])
+        for r in rows:
+            g.append({k: O.build(v, hs) for k, v in r.items()})
+        return g
+    for seq in seqs:
+        gc.disable()
+        reset(gf, None)
+        rows = _gs_rows()
+        g = mk(rows)
+        problem = None
+        for step, ei in enumerate(seq):
+            ev = GS_EVENTS[ei]
+            st.count('transitions')
+            if ev.startswith('F'):
+                text, ast = GS_FILTERS[int(ev[1])]
+                want = tuple(r['id'][1] for r in rows if RF.evaluate(ast, r, rows) is True)
+                try:
+                    got = tuple(r['id'].name for r in g.filter(text))
+                except BaseException as e:  # noqa
+                    got = 'raised:' + type(e).__name__
+                if got != want:
+                    problem = 'step %d: %r after %r answered %r, the rows now in the grid give %r' % (step, text, [GS_EVENTS[i] for i in seq[:step]], got, want)
+                    break
+                continue
+            if ev == 'replace-target-row':
+                i = next((k for k, r in enumerate(rows) if r['id'][1] == 's1'), None)
+                if i is None:
+                    continue
+                rows[i] = {'id': ('ref', 's1', 'Site 1'), 'area': N.num(20.0 if rows[i].get('area') != N.num(20.0) else 10.0)}
+                g[i] = {k: O.build(v, hs) for k, v in rows[i].items()}
+            elif ev == 'replace-source-row':
+                cur = rows[0]['siteRef'][1]
+                rows[0] = {'id': ('ref', 'e1', 'Equip 1'), 'siteRef': ('ref', 's2' if cur == 's1' else 's1', None), 'equip': MK}
+                g[0] = {k: O.build(v, hs) for k, v in rows[0].items()}
+            elif ev == 'delete-and-append':
+                last = rows[-1]
+                new = {'id': last['id'], 'area': N.num(30.0 if last.get('area') != N.num(30.0) else 20.0)}
+                del rows[-1]
+                del g[-1]
+                rows.append(new)
+                g.append({k: O.build(v, hs) for k, v in new.items()})
+            elif ev == 'mutate-row-in-place':
+                i = next((k for k, r in enumerate(rows) if r['id'][1] == 's1'), None)
+                if i is None:
+                    continue
+                nv = 30.0 if rows[i].get('area') != N.num(30.0) else 10.0
+                rows[i] = dict(rows[i], area=N.num(nv))
+                g[i]['area'] = nv
+            elif ev == 'drop-target-tag':
+                i = next((k for k, r in enumerate(rows) if r['id'][1] == 's2'), None)
+                if i is None or 'area' not in rows[i]:
+                    continue
+                rows[i] = {k: v for k, v in rows[i].items() if k != 'area'}
+                del g[i]['area']
+            elif ev == 'other-grid':
+                # the grid in use is dropped and another one of the same size takes its place (possibly at the same address)
+                variant = 1 if rows[0]['siteRef'][1] == 's1' else 0
+                rows = _gs_rows(variant)
+                g = None
+                g = mk(rows)
+        gc.enable()
+        st.count('executions')
+        st.count('states', len(seq))
+        st.case(('gridstate', tuple(seq)), nontrivial=len(set(seq)) > 1, outcome=('gridstate', bool(problem)))
+        if problem:
+            st.fail('filter-result-reflects-an-earlier-state-of-the-data', {'shape': 'data-history', 'last': GS_EVENTS[seq[-1]] if len(seq) else '-',
+                                                                            'before': GS_EVENTS[seq[step - 1]] if step else '-'},
+                    {'kind': 'gridstate', 'seq': list(seq)}, {'what': problem})
+    if seqs:
+        st.samples.append({'data_history': [GS_EVENTS[i] for i in seqs[0]]})
+    return st
+
+
 def long_history(kind, n, laps):
     """Boundary histories with the real cache capacity: individual long runs, not exhaustive."""
     import hszinc as hs
@@ -461,6 +563,11 @@ def run(ctx):
     seeded_rng(ctx.seed, 'c13f').shuffle(fam)
     for part in pmap(family_task, [(c,) for c in chunks(fam, ctx.jobs * 2)], ctx.jobs):
         st.merge(part)
+    GL = 4 if ctx.quick else 5
+    gs = [q for n in range(1, GL + 1) for q in itertools.product(range(len(GS_EVENTS)), repeat=n) if q[-1] < 3]     # a history ends in an evaluation
+    seeded_rng(ctx.seed, 'c13g').shuffle(gs)
+    for part in pmap(gridstate_task, [(c,) for c in chunks(gs, ctx.jobs * 2)], ctx.jobs):
+        st.merge(part)
     longs = [('cyclic', 499, 2), ('cyclic', 500, 2), ('cyclic', 501, 2), ('cyclic', 502, 2), ('hot-cold', 1100, 1), ('hot-cold', 520, 2)]
     if not ctx.quick:
         longs += [('cyclic', 1500, 2), ('cyclic', 501, 3), ('cyclic', 502, 3), ('hot-cold', 2600, 1), ('hot-cold', 5200, 1)]
@@ -470,10 +577,10 @@ def run(ctx):
         'stats': st, 'exhaustive': True,
         'rule': 'schedules: every interleaving (scheduling point = every source line of the non-lambda functions of hszinc/grid_filter.py and of '
                 'Grid.filter) of the listed thread plans with at most preemption_bound preemptions, each followed by a sequential post-phase; '
-                'histories: every request sequence of length <= %d over 4 filters with cache capacity 1 and 2; every ordered pair of 26 near-colliding or unit-sensitive filters (same text up to the kind of the literal, blanks or parentheses) from a clean state; plus individual long histories around '
+                'histories: every request sequence of length <= %d over 4 filters with cache capacity 1 and 2; every ordered pair of 26 near-colliding or unit-sensitive filters (same text up to the kind of the literal, blanks or parentheses) from a clean state; every history of length <= %d over 3 reference-following filters and 6 data changes (row replaced, mutated in place, deleted and re-appended, tag dropped, grid swapped for another of the same size) ending in an evaluation; plus individual long histories around '
                 'the real capacity (reported as individual runs, not exhaustive); evaluations = complete executions of the real code; distinct = '
-                'distinct (plan, capacity, schedule) or request sequence; non-trivial = at least one non-default scheduling choice / two different filters' % L,
-        'coverage': {'bounds': {'schedule_plans': bounds, 'history_length': L, 'history_capacities': [1, 2], 'long_histories': longs},
+                'distinct (plan, capacity, schedule) or request sequence; non-trivial = at least one non-default scheduling choice / two different filters' % (L, GL),
+        'coverage': {'bounds': {'schedule_plans': bounds, 'history_length': L, 'history_capacities': [1, 2], 'long_histories': longs, 'data_history_length': GL, 'data_histories': len(gs), 'data_events': GS_EVENTS},
                      'exhaustive_note': 'exhaustive for the schedule plans up to their preemption bound and for the short histories; the long histories are single runs'},
         'assumptions': ['interleavings below source-line granularity and inside C code (functools.lru_cache, dict operations) are not explored',
                         'gc is disabled during an execution so finalisers run at reference-count zero only',
@@ -488,6 +595,8 @@ def replay(case, st):
             st.fail(sym, {'capacity': str(used)}, case, {'what': text})
     elif case['kind'] == 'family':
         st.merge(family_task([tuple(case['seq'])]))
+    elif case['kind'] == 'gridstate':
+        st.merge(gridstate_task([tuple(case['seq'])]))
     elif case['kind'] == 'history':
         st.merge(history_task([tuple(case['seq'])], case['capacity']))
     else:
